@@ -245,6 +245,8 @@ impl Partition {
             final(self).consumer_offsets_path == old(self).consumer_offsets_path,
             final(self).consumer_group_offsets_path == old(self).consumer_group_offsets_path,
             final(self).current_offset == old(self).current_offset,
+            final(self).should_increment_offset == old(self).should_increment_offset,
+            final(self).unsaved_messages_count == old(self).unsaved_messages_count,
     { unimplemented!() }
 }
 
